@@ -297,6 +297,27 @@ pub fn negatives(ctx: &mut Ctx, s: &Step, t: &mut Tape) -> Result<(), Violation>
 
 const SAN_ALPHABET: &[char] = &['K', 'Q', 'R', 'B', 'N', 'a', 'b', 'c', 'd', 'e', 'f', 'g', 'h', '1', '2', '3', '4', '5', '6', '7', '8', 'x', 'O', '-', '+', '#', '=', ' ', 'e', '.', 'p', '0', 'é', '中', '\u{1F600}', '!', '?'];
 
+/// Positions asked one right after the other (each a start position of its own): parsing is a pure
+/// function of (position, text), so what was asked before must not matter. On failure the case
+/// names the whole sequence.
+pub fn check_in_turn(ctx: &mut Ctx, seq: &[Pos]) -> Result<(), Violation> {
+    let fens: Vec<String> = seq.iter().map(|p| p.fen()).collect();
+    let counts = std::collections::BTreeMap::new();
+    for p in seq {
+        let b = match <chess::Board as std::str::FromStr>::from_str(&p.fen()) {
+            Ok(b) => b,
+            Err(_) => continue,
+        };
+        let legal = p.legal_moves();
+        let s = Step { start: p, moves: &[], pos: p, legal: &legal, board: &b, prev: None, counts: &counts };
+        check_step(ctx, &s).map_err(|mut v| {
+            v.case = json!({"asked_in_turn": fens, "failing": v.case});
+            v
+        })?;
+    }
+    Ok(())
+}
+
 fn mutate(text: &str, t: &mut Tape) -> String {
     let mut cs: Vec<char> = text.chars().collect();
     for _ in 0..(1 + t.below(2)) {
@@ -362,6 +383,20 @@ pub fn run(cfg: &Cfg) -> i32 {
             let tape = std::cell::RefCell::new(Tape::new(&c.tape));
             let visit = |ctx: &mut Ctx, s: &Step| -> Result<(), Violation> {
                 check_step(ctx, s)?;
+                // one position in eight: the positions with the same men on the same squares (other
+                // side to move, rights dropped, en-passant state dropped) are asked in turn with it
+                if fp(&(s.pos, "siblings")) % 8 == 0 {
+                    let sibs = gen::placement_siblings(s.pos);
+                    if !sibs.is_empty() {
+                        let mut seq: Vec<Pos> = vec![];
+                        for q in sibs {
+                            seq.push(q);
+                            seq.push(s.pos.clone());
+                        }
+                        ctx.class("position:asked-in-turn-with-its-placement-siblings");
+                        check_in_turn(ctx, &seq)?;
+                    }
+                }
                 for g in &c.garbage {
                     ctx.class("text:generated-garbage");
                     check_any_text(ctx, s, g)?;
@@ -387,7 +422,7 @@ pub fn run(cfg: &Cfg) -> i32 {
     engine::finish(
         report,
         EvidenceSpec {
-            rule: "cases = (position, text) pairs. For every legal move of every position on golden and generated histories the reference SAN writer emits all admissible spellings (castling; piece letter with the minimal and every fuller correct disambiguation; pawn moves in canonical form and with the full source square (e4 / e2e4, exd5 / e4xd5); 'x' iff capture incl. en passant; promotion letter; each with and without the correct '+'/'#'; en passant additionally with ' e.p.') which must parse to exactly that move; under-specified spellings of moves with rivals, strict-grammar negatives (no or several fitting moves), long-form pawn spellings, mutated spellings, regex-shaped and arbitrary Unicode strings are checked with the universal oracle (no panic; a returned move is legal and fits the text; ambiguous and non-denoting strict texts are rejected). evaluations = texts parsed. Non-trivial = spelling with disambiguation, promotion, en passant or castling with check, or a strict text fitting >= 2 moves; distinct = (position, text) fingerprints.".into(),
+            rule: "cases = (position, text) pairs. For every legal move of every position on golden and generated histories the reference SAN writer emits all admissible spellings (castling; piece letter with the minimal and every fuller correct disambiguation; pawn moves in canonical form and with the full source square (e4 / e2e4, exd5 / e4xd5); 'x' iff capture incl. en passant; promotion letter; each with and without the correct '+'/'#'; en passant additionally with ' e.p.') which must parse to exactly that move; under-specified spellings of moves with rivals, strict-grammar negatives (no or several fitting moves), long-form pawn spellings, mutated spellings, regex-shaped and arbitrary Unicode strings are checked with the universal oracle; one position in eight is asked in turn with the positions that have the same men on the same squares (other side to move, castling rights dropped, en-passant state dropped), since the answer must not depend on what was asked before (no panic; a returned move is legal and fits the text; ambiguous and non-denoting strict texts are rejected). evaluations = texts parsed. Non-trivial = spelling with disambiguation, promotion, en passant or castling with check, or a strict text fitting >= 2 moves; distinct = (position, text) fingerprints.".into(),
             assumptions: vec!["reference SAN writer / strict grammar as in FIDE Appendix C and the library's own documentation comment".into()],
             trusted_base: vec!["harness/src/refmodel.rs".into(), "harness/src/props/c12.rs parse_strict/fits".into(), "proptest 1.11".into()],
             exhaustive: None,
@@ -397,6 +432,10 @@ pub fn run(cfg: &Cfg) -> i32 {
 }
 
 pub fn replay(ctx: &mut Ctx, case: &Value) -> Result<(), Violation> {
+    if let Some(list) = case.get("asked_in_turn").and_then(|x| x.as_array()) {
+        let seq: Vec<Pos> = list.iter().filter_map(|f| f.as_str().and_then(|t| Pos::from_fen(t).ok())).collect();
+        return check_in_turn(ctx, &seq);
+    }
     let text = case.get("text").and_then(|t| t.as_str()).map(|s| s.to_string());
     let (_, moves) = gen::parse_hist_case(case).map_err(|e| ctx.violation("INFRA", e, Value::Null))?;
     let n = moves.len();
